@@ -100,7 +100,20 @@ def size_class(n, c):
 def gen_bytes(rng, n, c):
     if n == 0:
         return b""
+    kind = rng.random()
+    if kind < 0.08:
+        return bytes(n)                                     # all zeros (sparse files, padding)
+    if kind < 0.14:
+        return bytes([rng.randrange(256)]) * n              # one byte value repeated
     b = bytearray(rng.randbytes(n))
+    if kind < 0.26 and n > 1:
+        # a run of one value covering whole chunks: the tail, the head or a chunk in the middle
+        fill = rng.choice([0, 0, 255, 10])
+        k = min(n, max(1, c * rng.randrange(1, 3)))
+        where = rng.choice(["tail", "tail", "head", "mid"])
+        start = n - k if where == "tail" else 0 if where == "head" else (max(0, (n // 2) // max(1, c) * c))
+        b[start:start + k] = bytes([fill]) * len(b[start:start + k])
+        return bytes(b[:n])
     for _ in range(min(4, n // 2)):
         s = rng.choice(SPECIALS)
         if len(s) <= n:
